@@ -25,6 +25,7 @@ WHAT = {
  "comment_in_heading": "D11: with html=True a comment range inside a heading paragraph is anchored one run off",
  "adjacent_links_diff_anchor": "D20: adjacent links with the same target and different anchors are merged into one link",
  "xml_comment_in_props": "D24: an XML comment inside w:rPr / w:pPr / w:tcPr raises KeyError (comment.nsmap is empty)",
+ "nested_par_in_table": "D27: a text box (nested paragraph) inside a table cell splits the table; a later vMerge continuation raises IndexError",
  "cell_without_par": "a table cell without a paragraph (schema-invalid) raises IndexError",
 }
 prop = sys.argv[1]
